@@ -532,7 +532,7 @@ impl<'a> Ev<'a> {
                         match t {
                             syn::UseTree::Path(p) => { prefix.push(p.ident.to_string()); leaves(&p.tree, prefix, out); prefix.pop(); }
                             syn::UseTree::Name(n) => out.push((prefix.clone(), n.ident.to_string())),
-                            syn::UseTree::Rename(_) => {}
+                            syn::UseTree::Rename(r) => out.push((prefix.iter().cloned().chain(std::iter::once(r.ident.to_string())).collect(), format!("as {}", r.rename))),
                             syn::UseTree::Glob(_) => out.push((prefix.clone(), "*".into())),
                             syn::UseTree::Group(g) => { for i in &g.items { leaves(i, prefix, out); } }
                         }
@@ -540,6 +540,11 @@ impl<'a> Ev<'a> {
                     let mut out = Vec::new();
                     leaves(&u.tree, &mut Vec::new(), &mut out);
                     for (prefix, name) in out {
+                        // `use Enum as Alias;`
+                        if let Some(alias) = name.strip_prefix("as ") {
+                            if let Some(en) = prefix.last() { if self.ix.enums.contains_key(en) || self.ix.structs.contains_key(en) { st.bind(&format!("__alias_{alias}"), Val::Str(en.clone())); } }
+                            continue;
+                        }
                         let Some(en) = prefix.last().map(|e| if e == "Self" { st.self_ty.clone().unwrap_or_default() } else { e.clone() }) else { continue };
                         let Some(ed) = self.ix.enums.get(&en) else { continue };
                         for v in ed.variants.iter().filter(|v| name == "*" || **v == name) { st.bind(v, Val::Enum { ty: en.clone(), var: v.clone(), args: vec![] }); }
@@ -1271,6 +1276,7 @@ impl<'a> Ev<'a> {
         if ty == "Self" {
             if let Some(t) = &st.self_ty { ty = t.clone(); }
         }
+        if let Some(Val::Str(real)) = st.lookup(&format!("__alias_{ty}")) { ty = real; }
         let last = &segs[n - 1];
         if let Some(e) = self.ix.enums.get(&ty) {
             if e.variants.iter().any(|v| v == last) {
